@@ -427,7 +427,8 @@ def x5_x7(ctx):
             parts = [n['l_'], n['r']]
             ck = [p for p in parts if 'contains_key' in sq(p)]
             pr = [p for p in parts if pred and pred + '(' in sq(p)]
-            if ck and pr:
+            # the node that directly combines the two tests: one operand holds the table test, the other the predicate
+            if len(ck) == 1 and len(pr) == 1 and ck[0] is not pr[0]:
                 tests.append((n, ck[0], pr[0]))
     arms_by_line = lambda l: arm_of_line(pp, l)
     per_arm = {}
@@ -494,8 +495,11 @@ def x5_x7(ctx):
         r6.inst('ifdef-vs-ifndef', {'statements': len(na)})
         if na != nb:
             diff = [(x, y) for x, y in zip(na, nb) if x != y][:2]
-            r6.fail('%s:ifdef-ifndef-differ' % CRATE, pp.where(b.line),
-                    'the `ifndef handler is not the `ifdef handler with the first test negated: %s' % (diff or 'different length'))
+            # a syntactic cross-check: when the two copies are no longer textually parallel each is judged on its own by the
+            # chain typestate rule (X15); the difference itself is reported as undecided, not as a violation
+            r6.undecided('%s:ifdef-ifndef-differ' % CRATE, pp.where(b.line),
+                         'the `ifndef handler is not textually the `ifdef handler with the first test negated (%s); X15 judges each on its own' %
+                         (str(diff)[:160] or 'different length'))
         for st_a in na:
             r6.inst('stmt:' + st_a[:40])
     # ---- X7
